@@ -71,7 +71,7 @@ def check_color_parser(ctx, rule="FIN-color"):
   return n
 
 
-TEXT_PROBES = ["plain", "e\u0301", "\u2126 \u212b", "\ufb01", "a\u0651\u064e", " two  spaces ", "", "\u1e9b\u0323", "col1\tcol2", "\U0001F3B5 \U00020000", "a\u200bb\ufeff", "line\u2028sep", "\x0b\x0c\x1f"]
+TEXT_PROBES = ["plain", "e\u0301", "\u2126 \u212b", "\ufb01", "a\u0651\u064e", " two  spaces ", "", "\u1e9b\u0323", "col1\tcol2", "\U0001F3B5 \U00020000", "a\u200bb\ufeff", "line\u2028sep", "\x0b\x0c\x1f", "\u200ertl\u200e", " lead and trail ", "\n\nline\n"]
 
 
 def check_text_identity(ctx, rule="ID-text"):
@@ -130,6 +130,15 @@ def _run_storing(me, ix, cls, f, this, text, argpos):
   return rec["_text"]
 
 
+def mi_dummy(ci):
+  """stand-in carrying the position of a property whose validate is a class attribute"""
+  class _V:
+    pass
+  o = _V()
+  o.module, o.node, o.qualname = ci.module, ci.node, f"{ci.qualname}.validate"
+  return o
+
+
 def check_validators_strict(ctx, rule="VAL-strict"):
   """A style property's validate() accepts only instances of the property's own type: for every property whose initial
   value is an enumeration member or a bool, the raw tokens of the enumeration (resp. the numbers 0 and 1) are rejected;
@@ -141,9 +150,9 @@ def check_validators_strict(ctx, rule="VAL-strict"):
   n_props = 0
   n = 0
   for name, ci in sorted(sp.nested.items()):
-    v = ci.methods.get("validate")
+    v = ci.methods.get("validate") or mi_dummy(ci)
     mi = ci.methods.get("make_initial_value")
-    if v is None or mi is None:
+    if mi is None or ("validate" not in ci.methods and "validate" not in ci.assigns):
       continue
     try:
       init = MiniEval(ix).call(mi, [])
@@ -175,7 +184,7 @@ def check_validators_strict(ctx, rule="VAL-strict"):
     n_props += 1
     for ok_ in valid:
       try:
-        r = MiniEval(ix).call(v, [ok_])
+        r = call_validate(ix, ci, ok_)
       except Raised:
         r = "raises"
       except NotConst as ex:
@@ -187,7 +196,7 @@ def check_validators_strict(ctx, rule="VAL-strict"):
     for p in probes:
       key = f"{v.qualname}|rejects the raw value {p!r}"
       try:
-        r = MiniEval(ix).call(v, [p])
+        r = call_validate(ix, ci, p)
       except Raised:
         r = False
       except NotConst as ex:
@@ -448,6 +457,8 @@ def check_lwsp_block(ctx, rule="FIN-lwsp"):
     ("a single space between spans", ("P", "p", [("Span", "s1", [T("t1", "a")]), T("t2", " "), ("Span", "s2", [T("t3", "b")])]), "p[span['a'], ' ', span['b']]"),
     ("nested spans emptied from the inside", ("P", "p", [T("t0", "x"), ("Span", "s1", [("Span", "s2", [T("t1", "  ")])])]), "p['x']"),
     ("nothing to do", ("P", "p", [("Span", "s1", [T("t1", "a b")])]), "p[span['a b']]"),
+    ("only a span with an empty text node", ("P", "p", [("Span", "s1", [T("t1", "")])]), "p[]"),
+    ("only white space", ("P", "p", [("Span", "s1", [T("t1", "  ")]), T("t2", "\n")]), "p[]"),
   ]
   methods = {
     "get_text": lambda n_: n_.fields.get("text"),
@@ -577,3 +588,63 @@ def check_timing_setters(ctx, rule="ID-time"):
                 "(a time that is not on the rounding grid moves; the exact instant is no longer a significant time)")
       n += 1
   return n
+
+
+def check_payload_eol(ctx, rule="FIN-eol"):
+  """SrtParagraph / VttCue: after append_text() calls and normalize_eol(), the payload has no empty line (no LF LF), and no line
+  break at its start or end - whatever way the line breaks arrived (one per call, or several inside one text node)."""
+  import re as _re
+  ix = ctx.ix
+  n = 0
+  seqs = [["a", "\n", "\n", "b"], ["a\n\nb"], ["\n", "a", "\n"], ["a", "\n\n\n", "b\n"], ["x"], ["first\n", "\nsecond"], ["a\n", "\n", "\nb"], ["a", "\n", "b", "\n", "c"]]
+  for q in ("ttconv.srt.paragraph:SrtParagraph", "ttconv.vtt.cue:VttCue"):
+    cls = ix.cls(q)
+    ap, ne = cls.methods.get("append_text"), cls.methods.get("normalize_eol")
+    if ap is None or ne is None:
+      raise_anchor(ix, f"{q}.append_text / normalize_eol")
+    ctx.unit(cls.module)
+    for seq in seqs:
+      key = f"{q}|payload after appending {seq!a}"
+      rec = {"__record__": cls.name, "__class__": cls, "_text": ""}
+      try:
+        me = MiniEval(ix)
+        for t in seq:
+          me.call(ap, [rec, t])
+        me.call(ne, [rec])
+      except Raised:
+        ctx.bad(rule, key, ctx.where(cls.module, ne.node), f"interpreted, appending {seq!a} and normalising raises")
+        n += 1
+        continue
+      except NotConst as ex:
+        ctx.undecide(rule, f"{q} on {seq!a}: not in the interpreted subset ({ex})")
+        continue
+      got = rec.get("_text")
+      want = _re.sub(r"\n{2,}", "\n", "".join(seq)).strip("\n\r")
+      ctx.check(got == want, rule, key, ctx.where(cls.module, ne.node), f"interpreted: {got!a}",
+                f"interpreted, append_text() of {seq!a} followed by normalize_eol() leaves the payload {got!a} instead of {want!a}: an empty line inside a payload ends the cue "
+                "(the rest is read as a new, malformed cue), and line breaks at its ends add blank lines between cues")
+      n += 1
+  return n
+
+
+
+def call_validate(ix, prop, value):
+  """StyleProperties.<prop>.validate(value), interpreted: the method, or - when `validate` is a class attribute built by a
+  factory (`validate = _instance_validator(T)`) - the function the factory returns."""
+  v = prop.methods.get("validate")
+  me = MiniEval(ix)
+  if v is not None:
+    return me.call(v, [value])
+  expr = prop.assigns.get("validate")
+  if expr is None:
+    for c in ix.mro(prop)[1:]:
+      if "validate" in c.methods:
+        return me.call(c.methods["validate"], [value])
+    raise NotConst("no validate()")
+  ctxf = next((g for g in ix.funcs_in(prop.module.name) if g.cls is None and getattr(g, "outer_func", None) is None), None)
+  if ctxf is None:
+    raise NotConst("no module-level context")
+  fn = me.ev(expr, {}, ctxf, 0)
+  if isinstance(fn, tuple) and fn and fn[0] == "closure":
+    return me.call(fn[1], [value], None, {k: v_ for k, v_ in fn[2].items() if k != "__self__"}, 1)
+  raise NotConst("validate is not a function")
